@@ -256,8 +256,13 @@ pub fn generate(a: &Args) {
     // encoder: singular last columns
     for i in 0..(if th { 30 } else { 8 }) {
         let (mut rows, n) = (systematic_code(12, 4, 50 + i), 12usize);
-        // make two tail columns equal: copy column 8 pattern into column 9
-        for r in rows.iter_mut() { let has8 = r.contains(&8); r.retain(|&c| c != 9); if has8 { r.push(9); r.sort_unstable(); } }
+        // a singular tail (columns 8..11), three ways: two equal columns at its start, two equal columns at its END (the dependency only
+        // shows at the last pivot), an all-zero last column
+        match i % 3 {
+            0 => for r in rows.iter_mut() { let has8 = r.contains(&8); r.retain(|&c| c != 9); if has8 { r.push(9); r.sort_unstable(); } },
+            1 => for r in rows.iter_mut() { let has10 = r.contains(&10); r.retain(|&c| c != 11); if has10 { r.push(11); r.sort_unstable(); } },
+            _ => for r in rows.iter_mut() { r.retain(|&c| c != 11); },
+        }
         scs.push(json!({"kind": "enc", "via": "string", "alist": matrix(&rows, n).alist(), "name": "", "pat": "", "path": "", "ops": [], "why": "singular"}));
     }
     for (idx, sc) in scs.iter().enumerate() { run_scenario(&mut out, sc, &work, idx); }
